@@ -226,7 +226,7 @@ CHECK_DEADLOCK FALSE
 
 def run_model(ctx, tbl, label, coverage=False):
     r = ctx.tlc("Naming", "Naming", "gen.cfg", files={"gen.cfg": CFG, "naming_tables.json": json.dumps(tbl)},
-                timeout=6000, label=label, coverage=coverage)
+                timeout=6000 if ctx.tier == "quick" else 30000, label=label, coverage=coverage)
     cases = ctx.tlc_cases(r)
     return r, cases
 
@@ -238,7 +238,7 @@ def case_program(tbl, case):
     raw = tbl["raw"]
     defs = []
     need_helper_struct = False
-    need_exc = False
+    need_exc = 0
     type_refs = []
     td_refs = []     # typedefs of the helper struct are referenced from a second helper (no recursion through the alias)
     for d in case["defs"]:
@@ -257,9 +257,10 @@ def case_program(tbl, case):
             fns = []
             for fn in d["fns"]:
                 args = [F(a["id"], "default", T("i32"), raw[a["n"] - 1]) for a in fn["args"]]
-                throws = [F(a["id"], "default", T(HELPER_EXC), raw[a["n"] - 1]) for a in fn["throws"]]
-                if throws:
-                    need_exc = True
+                # distinct exception types: two throws fields of one type are a separate matter (programs part)
+                throws = [F(a["id"], "default", T(HELPER_EXC + ("" if j == 0 else str(j))), raw[a["n"] - 1])
+                          for j, a in enumerate(fn["throws"])]
+                need_exc = max(need_exc, len(throws))
                 fns.append({"name": raw[fn["n"] - 1], "oneway": bool(fn["oneway"]), "ret": None if fn["void"] else T("i32"),
                             "args": args, "throws": throws or None})
             defs.append({"k": "service", "name": name, "extends": None, "functions": fns})
@@ -283,8 +284,8 @@ def case_program(tbl, case):
     if td_refs:
         pre.append({"k": "struct", "name": HELPER + "t",
                     "fields": [F(i + 1, "optional", T(n), "t%d" % (i + 1)) for i, n in enumerate(td_refs)]})
-    if need_exc:
-        pre.append({"k": "exception", "name": HELPER_EXC, "fields": [F(1, "default", T("string"), "m")]})
+    for j in range(need_exc):
+        pre.append({"k": "exception", "name": HELPER_EXC + ("" if j == 0 else str(j)), "fields": [F(1, "default", T("string"), "m")]})
     return {"files": [{"path": IDL_BASE + ".thrift", "namespaces": [{"lang": "go", "name": "n"}], "defs": pre + defs}]}
 
 
